@@ -35,7 +35,7 @@ TRUSTED_BASE = ["lib/scheme_ref.py: reference interpreter written from R7RS (an 
 MODEL_VOCAB_WIDE = True       # the merged model has the list/vector/predicate builtins: wide sessions go three-way
 
 MANIFEST = dict(
-    text='Coq theorems (coq/Props/C05.v) about the VM model for ANY builtin table: call/cc captures slots 0..=sp, sp/ep/bp and the address after the call, then re-dispatches as an ordinary application; invoking a continuation from any state restores exactly the saved slots and registers, delivers the value in %acc and leaves heap, Rc payloads, globals and output untouched; it does not modify the continuation object (reusable); zero arguments is an error; one instruction after the CALL/TCALL of call/cc the machine is literally in the pre-CALL state of (f k) with k in a fresh heap cell, for a closure, a plain lambda, another continuation or a builtin as receiver (callcc_is_call); the clause -continues as if call/cc had returned v- as a state equation (C05_invoke_equals_return): the state after the RET of the receiver with value v and the state after invoking k with v from ANY later state in which the continuation object is still live agree on sp, bp, ep, the next instruction, %acc = v and every stack slot up to sp, while heap, globals and output are those of the invoking state (mutations since capture stay visible), any number of times; frames pushed between capture and an escaping invocation are discarded whatever the depth. Not covered: call/cc at a TCALL site for the state equation, receivers with captured variables. Tie: generated call/cc sessions (operand/tail/nested positions, stored and re-entered continuations, later top-level forms), three-way differential + independent CPS reference interpreter as oracle.',
+    text='Coq theorems (coq/Props/C05.v) about the VM model for ANY builtin table: call/cc captures slots 0..=sp, sp/ep/bp and the address after the call, then re-dispatches as an ordinary application; invoking a continuation from any state restores exactly the saved slots and registers, delivers the value in %acc and leaves heap, Rc payloads, globals and output untouched; it does not modify the continuation object (reusable); zero arguments is an error; one instruction after the CALL/TCALL of call/cc the machine is literally in the pre-CALL state of (f k) with k in a fresh heap cell, for a closure, a plain lambda, another continuation or a builtin as receiver (callcc_is_call); the clause -continues as if call/cc had returned v- as a state equation (C05_invoke_equals_return): the state after the RET of the receiver with value v and the state after invoking k with v from ANY later state in which the continuation object is still live agree on sp, bp, ep, the next instruction, %acc = v and every stack slot up to sp, while heap, globals and output are those of the invoking state (mutations since capture stay visible), any number of times; frames pushed between capture and an escaping invocation are discarded whatever the depth. a continuation captured in one evaluation is live in every later state - after any instructions, slices, compilations and whole evaluations with any outcome - so the state equation applies from a later top-level evaluation, any number of times, with no side condition (C05_invoke_equals_return_later); the TCALL-site variant holds one RET later under a frame hypothesis checked on an example. Not covered: receivers with captured variables. Tie: generated call/cc sessions (operand/tail/nested positions, stored and re-entered continuations, later top-level forms), three-way differential + independent CPS reference interpreter as oracle.',
     design="DESIGN.md section 5 C05",
     note="The theorems are in coq/Props/C05.v. "
          "The reference interpreter is an ORACLE for classifying the implementation's output, not a proof. "
